@@ -23,7 +23,8 @@ def specs(rng, tier, count):
         # zero measurement error: no nugget, or exact mode with a nugget
         mode = i % 3
         spec = KC.gen_spec(rng, variant=v, geo=g, dim=dim, tier=tier, exact=(mode == 2),
-                           nugget=(0.0 if mode < 2 else float(np.round(rng.uniform(0.05, 0.5), 3))))
+                           nugget=(0.0 if mode < 2 else float(np.round(rng.uniform(0.05, 0.5), 3))),
+                           norm_prob=0.5, mean_nonzero=(v == "Simple" and i % 2 == 0))
         if mode < 2:
             spec["cond_err"] = "nugget" if mode == 0 else 0.0
         out.append(spec)
